@@ -458,6 +458,11 @@ def ok4(model):
             return None
         if isinstance(e, ast.Call) and getattr(e.func, 'id', '') in ('list', 'tuple') and e.args:
             return bias(e.args[0], depth - 1)
+        if isinstance(e, ast.BinOp) and isinstance(e.op, ast.Mult):
+            for lst in (e.left, e.right):
+                if isinstance(lst, ast.List) and len(lst.elts) == 1 and isinstance(lst.elts[0], ast.Constant) \
+                        and isinstance(lst.elts[0].value, int):
+                    return lst.elts[0].value        # [c] * n: every entry is c
         if isinstance(e, ast.Subscript):
             return 'part'
         return None
@@ -493,7 +498,9 @@ def ok4(model):
                         if isinstance(p, ast.For):
                             loops += 1
                             if any(isinstance(x, ast.Slice) for x in ast.walk(p.iter)) \
-                                    or any(isinstance(x, ast.Call) for x in ast.walk(p.iter)):
+                                    or any(isinstance(x, ast.Call) and not (
+                                        isinstance(x.func, ast.Attribute) and x.func.attr in ('values', 'items')
+                                        and not x.args) for x in ast.walk(p.iter)):
                                 cond = True     # only a part of the collection is visited
                         if isinstance(p, ast.If):
                             cond = True
